@@ -162,7 +162,19 @@ def run(ctx):
                     kw["date_formats"] = ["%Y-%m-%d %H:%M:%S"]
                 elif parser == "relative":
                     s = rng.choice(["now", "0 seconds ago"])
-                    st["RELATIVE_BASE"] = [w.year, w.month, w.day, w.hour, w.minute, w.second, 0]
+                    wb = w
+                    if rng.random() < 0.5:
+                        # a phrase that MOVES the reference by whole days (often across a DST change of TIMEZONE): the
+                        # result is the wall clock w in TIMEZONE, an instant like any other
+                        nd = rng.choice([30, 45, 120, 200, 7, 400])
+                        fut = rng.random() < 0.5
+                        wb2 = w - datetime.timedelta(days=nd) if fut else w + datetime.timedelta(days=nd)
+                        if 1950 <= wb2.year <= 2037 and local_ok(A[1], wb2) is not None:
+                            wb = wb2
+                            s = rng.choice(["in %d days", "in %d day"]) % nd if fut else "%d days ago" % nd
+                            if nd % 7 == 0 and rng.random() < 0.5:
+                                s = "in %d weeks" % (nd // 7) if fut else "%d weeks ago" % (nd // 7)
+                    st["RELATIVE_BASE"] = [wb.year, wb.month, wb.day, wb.hour, wb.minute, wb.second, 0]
                 else:
                     n = int((inst - datetime.datetime(1970, 1, 1)).total_seconds())
                     if not (10 ** 9 <= n < 10 ** 10):
